@@ -104,8 +104,9 @@ def run_instance(inst):
     if kind == 'pickle':
         return run_pickle(inst)
     _, sname, latlon, cycles = inst[:4]
+    crs = inst[5] if len(inst) > 5 else None
     script = SCRIPTS[sname]
-    name = f"sqlite script={sname} use_latlon={latlon} reopen_cycles={cycles}"
+    name = f"sqlite script={sname} use_latlon={latlon} reopen_cycles={cycles} crs={crs}"
     shims.install()
     opq = opaque.Opaque()
     opq.install()
@@ -127,7 +128,7 @@ def run_instance(inst):
                 os.remove(os.path.join(d, fn + suffix))
             except OSError:
                 pass
-        m = SqliteMap(fn, use_latlon=latlon, dir=d)
+        m = SqliteMap(fn, use_latlon=latlon, dir=d, **(dict(crs_lonlat=crs[0], crs_xy=crs[1]) if crs else {}))
         apply_script(m, script, coords)
         spatial = not latlon
         obs = [observe(m, query, spatial)]
@@ -147,9 +148,9 @@ def run_instance(inst):
     def confirm(eng, model, v, cname):
         cc = {n: tuple(E.model_value(model, c.t) for c in p) for n, p in v['coords'].items()}
         q = (tuple(E.model_value(model, c.t) for c in v['query'][0]), max(E.model_value(model, z3.Real("r_sq")), 1e-6) ** 0.5)
-        bad = concrete_roundtrip(sname, latlon, cycles, cc, q)
+        bad = concrete_roundtrip(sname, latlon, cycles, cc, q, crs)
         if bad:
-            return dict(desc=bad, script=sname, use_latlon=latlon, cycles=cycles, coords={str(k): list(c) for k, c in cc.items()}, query=[list(q[0]), q[1]], kind='sqlite')
+            return dict(desc=bad, crs=crs, script=sname, use_latlon=latlon, cycles=cycles, coords={str(k): list(c) for k, c in cc.items()}, query=[list(q[0]), q[1]], kind='sqlite')
         return None
 
     try:
@@ -163,7 +164,7 @@ def run_instance(inst):
     return out
 
 
-def concrete_roundtrip(sname, latlon, cycles, cc, q):
+def concrete_roundtrip(sname, latlon, cycles, cc, q, crs=None):
     """The same script on the REAL sqlite3 with concrete coordinates; returns None or a description of the difference."""
     from leuvenmapmatching.map.sqlite import SqliteMap
     d = sqlcommon.scratch_dir()
@@ -172,7 +173,7 @@ def concrete_roundtrip(sname, latlon, cycles, cc, q):
             sqlcommon.uninstall()
             try:
                 with contextlib.redirect_stdout(io.StringIO()):
-                    m = SqliteMap("replay", use_latlon=latlon, dir=d)
+                    m = SqliteMap("replay", use_latlon=latlon, dir=d, **(dict(crs_lonlat=crs[0], crs_xy=crs[1]) if crs else {}))
                     apply_script(m, SCRIPTS[sname], cc)
                     first = observe(m, q, True)
                     m.db.close()
@@ -235,6 +236,8 @@ def instances(tier):
         for latlon in (False, True):
             for cycles in ((1, 2) if tier == 'thorough' or s in ('single', 'bulk') else (1,)):
                 out.append(('sqlite', s, latlon, cycles))
+    out.append(('sqlite', 'single', False, 2, None, ('EPSG:4258', 'EPSG:31370')))
+    out.append(('sqlite', 'bulk', True, 1, None, ('EPSG:4258', 'EPSG:31370')))
     return out
 
 
@@ -249,7 +252,7 @@ def main(tier):
                              inmem.InMemMap.deserialize, inmem.InMemMap.dump, inmem.InMemMap.from_pickle)
     from symx.common import fit_budget
     budget = fit_budget(len(instances(tier)), tier, 100, 100)
-    res = run_instances(run_instance, [i + (budget,) if i[0] == 'sqlite' else i for i in instances(tier)])
+    res = run_instances(run_instance, [(i[:4] + (budget,) + i[5:]) if i[0] == 'sqlite' else i for i in instances(tier)])
     rep.bounds = dict(map="3 integer-labelled nodes with symbolic coordinates, up to 3 directed edges", scripts=sorted(SCRIPTS) if tier == 'thorough' else "6 of the build scripts",
                       flag="use_latlon False and True (spatial queries compared in the planar case; lat-lon with opaque trigonometry)",
                       cycles="1-2 reopen cycles", query="symbolic location and radius")
@@ -283,7 +286,7 @@ def replay_file(path):
     q = (tuple(d['query'][0]), d['query'][1])
     from harness import sqlcommon as sc
     sc.install()      # concrete_roundtrip switches to the real sqlite3 itself
-    bad = concrete_roundtrip(d['script'], d['use_latlon'], d['cycles'], cc, q)
+    bad = concrete_roundtrip(d['script'], d['use_latlon'], d['cycles'], cc, q, d.get('crs'))
     sc.uninstall()
     print(bad or "consistent")
     return 1 if bad else 0
